@@ -67,6 +67,8 @@ var zzStepFamily = []map[int]float64{
 	{0: 0, 100: 255},
 	{30: 50, 60: 50, 90: 200},
 	{20: 10, 40: 10},
+	{-20: 0, -10: 20, 0: 60, 10: 255},
+	{-5: 30, 5: 200},
 }
 
 func zzMemberIds(n int) []string {
